@@ -63,7 +63,8 @@ func profileFor(prop, tier string, rng *PRNG) *Profile {
 	}
 	switch prop {
 	case "C01":
-		only("aol", "aolAdv", "authz", "multi", "replay")
+		only("aol", "aolAdv", "authz", "multi", "replay", "rollback")
+		boost("rollback", 3)
 		boost("aol", 2)
 		p.PBootstrap, p.PCrash = 0.08, 0.15
 	case "C02":
@@ -119,11 +120,11 @@ func profileFor(prop, tier string, rng *PRNG) *Profile {
 		only("did", "didAdv", "replay")
 		boost("didAdv", 5)
 	case "C12":
-		only("pnft", "pnftAdv", "multi")
+		only("pnft", "pnftAdv", "multi", "rollback")
 		boost("pnftAdv", 4)
 		p.PBootstrap = 0.08
 	case "C13":
-		only("aol", "aolAdv", "authz")
+		only("aol", "aolAdv", "authz", "rollback")
 		boost("aol", 3)
 		p.Seeded = 0.8
 		p.QueryEvery = 2
@@ -645,6 +646,12 @@ func (g *Gen) didDoc(did string, keys []int, style int) *DocSpec {
 	}
 	if r.Chance(0.2) {
 		d.Controller = []string{did}
+	} else if r.Chance(0.25) {
+		// controlled by another identifier (possibly registered, possibly in the same genesis)
+		d.Controller = []string{g.env.Dids[r.Intn(NumDidKeys)]}
+		if r.Chance(0.3) {
+			d.Controller = append(d.Controller, g.env.Dids[r.Intn(NumDidKeys)])
+		}
 	}
 	if r.Chance(0.3) {
 		d.Services = []SvcSpec{{Id: "svc1", Type: "LinkedDomains", Endpoint: "https://example.org"}}
@@ -1354,8 +1361,17 @@ func (g *Gen) famRollback() {
 	toks := g.planTokens()
 	topics := g.planTopics()
 	act := g.planDids(true)
-	kind := r.Intn(5)
+	kind := r.Intn(6)
 	switch {
+	case kind == 5 && len(topics) > 0: // appends on discarded state, then a committed append: offsets must not skip
+		t := topics[r.Intn(len(topics))]
+		ws := g.planWriters(t[0], t[1])
+		if len(ws) == 0 || g.env.AccByAddr(mustAddr(ws[0])) == nil {
+			return
+		}
+		m1 = g.recordSpec(t[0], t[1], ws[0], "")
+		m2 = g.recordSpec(t[0], t[1], ws[0], "")
+		follow = []MsgSpec{g.recordSpec(t[0], t[1], ws[0], ""), g.recordSpec(t[0], t[1], ws[0], "")}
 	case kind == 0 && len(dens) > 0: // hand a denom over, the receiver mints
 		d := dens[r.Intn(len(dens))]
 		a := g.plan.Denoms[d].Owner
@@ -1414,7 +1430,11 @@ func (g *Gen) famRollback() {
 	default:
 		return
 	}
-	bad := M("aol.AddWriter", "topic", "no-such-topic-rollback", "owner", m1.F[firstActorField(m1)], "writer", g.addr(0))
+	actor := m1.F[firstActorField(m1)]
+	if m1.T == "aol.AddRecord" {
+		actor = m1.F["writer"]
+	}
+	bad := M("aol.AddWriter", "topic", "no-such-topic-rollback", "owner", actor, "writer", g.addr(0))
 	if m1.T[:3] == "did" {
 		bad = M("aol.AddWriter", "topic", "no-such-topic-rollback", "owner", m1.F["from"], "writer", g.addr(0))
 	}
